@@ -13,6 +13,8 @@ for id in "$@"; do
   : > $log
   git checkout -q -- .
   echo "base commit: $(git rev-parse --short HEAD)" >> $log
+  # optional preparation of the scratch worktree (e.g. a dev-dependency feature the demo needs)
+  [ -f $src/confirm.pre ] && bash $src/confirm.pre >> $log 2>&1
   pkg=polytune
   if grep -q "^+++ b/crates/polytune-server-core" $src/patch.diff || grep -qs "polytune_server_core" $src/demo/*.rs; then pkg=polytune-server-core; fi
   demo=$(ls $src/demo/*.rs | head -1); name=$(basename $demo .rs)
